@@ -222,6 +222,7 @@ static void build_menus() {
     GN('r', {1, 0}), GN('r', {0, 1}), GN('r', {1, 1}), GN('r', {-1, 0}),
     GN('l', {1, 0}), GN('l', {1, -1}),
     GN('c', {0, 0}), GN('c', {2, 2}), GN('c', {3, 0}, 2),
+    GN('r', {0, -1}),
   };
   EM = {
     LE({1, 0}, 0), LE({0, 1}, 0), LE({-1, 0}, 0), LE({2, 0}, 0), LE({1, 0}, 1), LE({0, 1}, 2), LE({1, 1}, 0),
@@ -304,28 +305,37 @@ static void build_ops() {
       o.refv = [a, b](const Cell& v, const Cell*, bool) { if (v.bot) return v; Cell r = v; r.rows.push_back(a.row(v.n)); r.rows.push_back(b.row(v.n)); return r; };
       add_op(o);
     }
-    int gp[][2] = {{1, 7}, {3, 11}, {13, 5}};
+    // systems of 2 and 3 generators; the triples complete a universe / half-plane out of lines and rays
+    // that are all pending at once (fast paths that count pending lines and rays: is_universe, is_bounded)
+    std::vector<std::vector<int> > gp = {{1, 7}, {3, 11}, {13, 5}, {11, 8, 16}, {12, 9, 10}, {7, 10, 8}, {0, 11, 8}};
     for (auto& pr : gp) {
-      GN a = GM[pr[0]], b = GM[pr[1]];
-      Op o; o.name = "add_generators({" + a.str() + "," + b.str() + "})"; o.builder = true;
-      o.ok = [a, b](const Ctx& x) {
-        if (!fitsg(a, x.dim) || !fitsg(b, x.dim)) return false;
-        if ((a.t == 'c' || b.t == 'c') && !x.nnc) return false;
-        if ((a.t == 'r' || a.t == 'l') && truncg(a, x.dim).zero()) return false;
-        if ((b.t == 'r' || b.t == 'l') && truncg(b, x.dim).zero()) return false;
-        // the system must contain a point when the receiver is empty
-        if (cell_empty(x.cls) && a.t != 'p' && b.t != 'p') return false;
-        return true; };
-      o.apply = [a, b](Polyhedron& p, const Polyhedron*) { PPL::Generator_System gs; int d = p.space_dimension(); gs.insert(truncg(a, d).ppl()); gs.insert(truncg(b, d).ppl()); p.add_generators(gs); return std::string(); };
-      o.refv = [a, b](const Cell& v, const Cell*, bool nnc) {
-        // hull with the polyhedron generated by {a, b}; order the point first
-        GN f = a, s = b; if (f.t != 'p' && s.t == 'p') std::swap(f, s);
-        if (v.bot) {
-          ref::Gens g; g.push_back(truncg(f, v.n).gen(v.n)); g.push_back(truncg(s, v.n).gen(v.n));
-          return ref::from_gens(g, v.n, nnc);
+      std::vector<GN> gl; for (int i : pr) gl.push_back(GM[i]);
+      std::string nm = "add_generators({";
+      for (size_t i = 0; i < gl.size(); ++i) { if (i) nm += ","; nm += gl[i].str(); }
+      Op o; o.name = nm + "})"; o.builder = true;
+      o.ok = [gl](const Ctx& x) {
+        bool pt = false;
+        for (const GN& g : gl) {
+          if (!fitsg(g, x.dim)) return false;
+          if (g.t == 'c' && !x.nnc) return false;
+          if ((g.t == 'r' || g.t == 'l') && truncg(g, x.dim).zero()) return false;
+          if (g.t == 'p') pt = true;
         }
-        Cell r = ref::add_generator(v, truncg(f, v.n).gen(v.n), nnc);
-        return ref::add_generator(r, truncg(s, v.n).gen(v.n), nnc); };
+        // the system must contain a point when the receiver is empty
+        if (cell_empty(x.cls) && !pt) return false;
+        return true; };
+      o.apply = [gl](Polyhedron& p, const Polyhedron*) { PPL::Generator_System gs; int d = p.space_dimension(); for (const GN& g : gl) gs.insert(truncg(g, d).ppl()); p.add_generators(gs); return std::string(); };
+      o.refv = [gl](const Cell& v, const Cell*, bool nnc) {
+        // hull with the polyhedron generated by the system; order a point first
+        std::vector<GN> ord = gl;
+        for (size_t i = 0; i < ord.size(); ++i) if (ord[i].t == 'p') { std::swap(ord[0], ord[i]); break; }
+        Cell r = v; size_t from = 0;
+        if (v.bot) {
+          ref::Gens g; g.push_back(truncg(ord[0], v.n).gen(v.n)); g.push_back(truncg(ord[1], v.n).gen(v.n));
+          r = ref::from_gens(g, v.n, nnc); from = 2;
+        }
+        for (size_t i = from; i < ord.size(); ++i) r = ref::add_generator(r, truncg(ord[i], v.n).gen(v.n), nnc);
+        return r; };
       add_op(o);
     }
   }
@@ -852,7 +862,7 @@ static void build_queries() {
   // relation_with(generator)
   {
     std::vector<GN> rg = GM;
-    rg.push_back(GN('p', {1, 0})); rg.push_back(GN('p', {1, 1})); rg.push_back(GN('r', {0, -1})); rg.push_back(GN('l', {0, 1})); rg.push_back(GN('p', {1, 2}, 3));
+    rg.push_back(GN('p', {1, 0})); rg.push_back(GN('p', {1, 1})); rg.push_back(GN('l', {0, 1})); rg.push_back(GN('p', {1, 2}, 3));
     for (size_t i = 0; i < rg.size(); ++i) {
       GN g = rg[i];
       Query q; q.name = "relation_with(" + g.str() + ")"; q.binary = false;
